@@ -39,6 +39,7 @@ def main(tier, seed):
             r = rng.random()
             if r < 0.45:
                 p = rand_prog(rng, grammar=True)
+                if rng.random() < 0.12: p = idiom_bigfrac(rng) + p[:3]
                 content = render_prog(p, rng.choice([" ", "\n"])).encode("utf-8")
             elif r < 0.65:
                 # near-syntax texts: short strings over one representative of every character class (orphan start
